@@ -68,7 +68,7 @@ var (
 	vBadChans = []string{"&x", "#", "a", "#a:b", ""}
 	vKeys     = []string{"k1", "k2"}
 	vTexts    = []string{"hi", "hello world", ":colon first", ""}
-	vAddrs    = []string{"a1", "a2", "a3"}
+	vAddrs    = []string{"a1", "a2", "a3", "2001:db8::1", "2001:DB8::1"}
 	vPseudo   = []string{"NickServ", "ChanServ", "Bot", "bot", "B[ot]", "OperServ", "b{ot}", "b[ot]"}
 )
 
@@ -129,7 +129,8 @@ func vCfgEntry(r *rand.Rand, id, ts, rev int64) *vEntry {
 		e.CfgOk = false
 		return e
 	}
-	proj := map[string]interface{}{"rev": rev, "banned": map[string]interface{}{}}
+	banned := map[string]interface{}{}
+	proj := map[string]interface{}{"rev": rev, "banned": banned}
 	var sb strings.Builder
 	exp := []int64{600, 1800, 60}[r.Intn(3)]
 	fmt.Fprintf(&sb, "SessionExpiration = \"%ds\"\nPostMessageCooloff = \"0s\"\n", exp)
@@ -148,6 +149,14 @@ func vCfgEntry(r *rand.Rand, id, ts, rev int64) *vEntry {
 	}
 	proj["capcfg"], proj["caplogin"] = capcfg, caplogin
 	sb.WriteString("[TrustedBridges]\nbridgeauth = \"bridge1\"\n")
+	if r.Intn(3) == 0 {
+		// a ban table written by hand (an address may be spelled differently than the server sees it)
+		sb.WriteString("[Banned]\n")
+		for _, a := range []string{"2001:DB8::1", "a3"}[:1+r.Intn(2)] {
+			fmt.Fprintf(&sb, "%q = %q\n", a, "listed "+a)
+			banned[a] = "listed " + a
+		}
+	}
 	if r.Intn(2) == 0 {
 		sb.WriteString("[WhitelistedOrigins]\n\"https://web.example\" = true\n")
 	}
@@ -176,6 +185,7 @@ type vGen struct {
 	cmid   int64
 	rev    int64
 	length int
+	minlen int // a scripted warm-up that is longer than the history length extends the history
 	wild   int // percentage of client lines drawn from the grammar/mutation fuzzer instead of the alphabet
 }
 
@@ -433,7 +443,7 @@ func (g *vGen) next(step int, st map[string]interface{}) *vEntry {
 		case 19:
 			e.Data = fmt.Sprintf(":%s SVSPART %s %s", pfx, clientNick(), anyChan())
 		case 20:
-			e.Data = fmt.Sprintf(":%s SVSMODE %s %s", pfx, clientNick(), pick(r, []string{"+r", "-r", "+d 7", "+x", "r"}))
+			e.Data = fmt.Sprintf(":%s SVSMODE %s %s", pfx, clientNick(), pick(r, []string{"+r", "-r", "+d 7", "+x", "r", "+d", "-d", "+d 0"}))
 		case 21:
 			if r.Intn(3) == 0 {
 				e.Data = fmt.Sprintf(":%s SVSHOLD %s", pfx, pick(r, vNicks))
@@ -622,8 +632,53 @@ func (g *vGen) next(step int, st map[string]interface{}) *vEntry {
 // warmup returns a scripted registration phase; session ids are the entry ids, which are
 // assigned when the entries are emitted (entry k of the script gets id g.id+k-1... the
 // script therefore refers to sessions by position: Sess is patched below).
+// volume: a history in which one thing exists in large numbers (more channels and pending invitations than any
+// plausible internal cap or cache holds), so that "after the N-th item" code paths run
+func (g *vGen) volume() []*vEntry {
+	r := g.r
+	var es []*vEntry
+	g.rev++
+	cfg := vCfgEntry(r, 0, 0, g.rev)
+	for !cfg.CfgOk || cfg.Cfg["maxs"].(int64) != 0 || cfg.Cfg["maxc"].(int64) != 0 || len(cfg.Cfg["opers"].([]interface{})) == 0 {
+		cfg = vCfgEntry(r, 0, 0, g.rev)
+	}
+	es = append(es, cfg)
+	base := g.id
+	line := func(sess int64, data string) {
+		es = append(es, &vEntry{T: "line", Sess: sess, Data: data, Sup: true, Conf: true})
+	}
+	for k := 0; k < 2; k++ {
+		es = append(es, &vEntry{T: "create", Data: fmt.Sprintf("auth%04d-secret", base+int64(k)+1), Sup: true, Conf: true})
+	}
+	a, b := base+1, base+2
+	line(a, "NICK alice")
+	line(a, "USER u1 0 * :Real 1")
+	line(b, "NICK bob")
+	line(b, "USER u2 0 * :Real 2")
+	const n = 36
+	for lo := 1; lo <= n; lo += 6 {
+		var cs []string
+		for k := lo; k < lo+6 && k <= n; k++ {
+			cs = append(cs, fmt.Sprintf("#v%02d", k))
+		}
+		line(a, "JOIN "+strings.Join(cs, ","))
+	}
+	line(a, "MODE #v09 +i")
+	for k := 1; k <= n; k++ {
+		line(a, fmt.Sprintf("INVITE bob #v%02d", k))
+	}
+	for _, k := range []int{9, 1, n} {
+		line(b, fmt.Sprintf("JOIN #v%02d", k))
+	}
+	g.minlen = len(es) + 8
+	return es
+}
+
 func (g *vGen) warmup() []*vEntry {
 	r := g.r
+	if r.Intn(14) == 0 {
+		return g.volume()
+	}
 	var es []*vEntry
 	g.rev++
 	cfg := vCfgEntry(r, 0, 0, g.rev)
@@ -646,8 +701,12 @@ func (g *vGen) warmup() []*vEntry {
 			es = append(es, &vEntry{T: "line", Sess: sess, Data: "PASS services=spw", Sup: true, Conf: true})
 			es = append(es, &vEntry{T: "line", Sess: sess, Data: "SERVER services.example 1 :Services", Sup: true, Conf: true})
 			for _, p := range vPseudo[:2+r.Intn(3)] {
+				user := strings.ToLower(p[:2])
+				if r.Intn(4) == 0 {
+					user = "helpdesk-bot-of-the-robustirc-services-team" // longer than the limit for ordinary users
+				}
 				es = append(es, &vEntry{T: "line", Sess: sess, Sup: true, Conf: true,
-					Data: fmt.Sprintf("NICK %s 1 1 %s services.example services.example 0 +o :%s service", p, strings.ToLower(p[:2]), p)})
+					Data: fmt.Sprintf("NICK %s 1 1 %s services.example services.example 0 +o :%s service", p, user, p)})
 			}
 			continue
 		}
@@ -658,6 +717,11 @@ func (g *vGen) warmup() []*vEntry {
 		es = append(es, &vEntry{T: "line", Sess: sess, Data: fmt.Sprintf("USER u%d 0 * :Real %d", k+1, k+1), Sup: true, Conf: true})
 		if r.Intn(2) == 0 {
 			es = append(es, &vEntry{T: "line", Sess: sess, Data: "JOIN " + pick(r, []string{"#a", "#b", "#a,#b", "#Chan", "#A", "#Chan,#b"}), Sup: true, Conf: true})
+			if r.Intn(8) == 0 {
+				// SERVER is an ordinary client command: a logged-in member may send it too
+				es = append(es, &vEntry{T: "line", Sess: sess, Data: "PASS services=spw", Sup: true, Conf: true})
+				es = append(es, &vEntry{T: "line", Sess: sess, Data: "SERVER late.example 1 :Late", Sup: true, Conf: true})
+			}
 		}
 	}
 	return es
@@ -740,7 +804,7 @@ func vVerifyMirror(tok string, ts int64) bool {
 func vGenHistory(rng *rand.Rand, length int, wild int) func(step int, st map[string]interface{}) *vEntry {
 	g := &vGen{r: rng, ts: vTsBase + int64(rng.Intn(100)), length: length, wild: wild}
 	return func(step int, st map[string]interface{}) *vEntry {
-		if step > length {
+		if step > length && step > g.minlen {
 			return nil
 		}
 		return g.next(step, st)
